@@ -23,6 +23,16 @@ Print Assumptions c01_state_plain.
 Theorem c01_state_ctx : forall ptab s k rv, enforce_with_ctx ptab s k rv = perm_ref_ctx ptab s k rv.
 Proof. intros. apply enforce_is_perm. Qed.
 Print Assumptions c01_state_ctx.
+(* a hand-assembled EnforceContext: four independent section names *)
+Theorem c01_state_ctx4 : forall ptab s rk pk ek mk rv,
+  enforce_with_ctx4 ptab s rk pk ek mk rv = perm_ref_ctx4 ptab s rk pk ek mk rv.
+Proof. intros. apply enforce_is_perm. Qed.
+Print Assumptions c01_state_ctx4.
+(* EnforceContext::new(k) is the context (r++k, p++k, e++k, m++k) *)
+Theorem c01_ctx_is_ctx4 : forall ptab s k rv,
+  enforce_with_ctx ptab s k rv = enforce_with_ctx4 ptab s (s_r ++ k) (s_p ++ k) (s_e ++ k) (s_m ++ k) rv.
+Proof. reflexivity. Qed.
+Print Assumptions c01_ctx_is_ctx4.
 
 (* never grants what the semantics deny, never denies what they grant *)
 Theorem c01_no_false_grant : forall ptab en md mx fs rk pk ek mk et rv,
